@@ -56,7 +56,7 @@ var sink = sync.OnceValue(func() *httptest.Server {
 var optPool = []string{"segtimeline_1", "segtimelinenr_1", "tsbd_20", "tsbd_300", "mup_2", "ato_0.5", "ato_inf", "snr_7", "start_600", "periods_60", "periods_30/continuous_1",
 	"scte35_1", "scte35_3", "utc_direct-ntp", "utc_httpiso-head", "ltgt_2500", "spd_6", "sidx_1", "timesubsstpp_en,sv", "timesubswvtt_en", "timesubsstpp_en/timesubsdur_400/timesubsreg_1",
 	"eccp_cbcs", "eccp_cenc", "drm_EZDRM-1-key-cbcs-test", "drm_EZDRM-2-keys-cbcs-test", "patch_60", "annexI_a=1,b=2", "statuscode_[{cycle:30,rsq:1,code:404}]", "traffic_u10d20",
-	"ato_1/chunkdur_0.5", "segtimelineloss_1", "timeoffset_1.5", "stop_100000000", "tfdt_32/start_1600000000", "xlink_60/periods_60", "etp_60/periods_60", "insertad_1/periods_60", "mup_1/startrel_-20/stoprel_20"}
+	"ato_1/chunkdur_0.5", "segtimelineloss_1", "timeoffset_1.5", "stop_100000000", "stop_1800", "stop_1800", "stop_1690000000", "tfdt_32/start_1600000000", "xlink_60/periods_60", "etp_60/periods_60", "insertad_1/periods_60", "mup_1/startrel_-20/stoprel_20"}
 
 var siblingOpts = [][2]string{{"drm_EZDRM-1-key-cbcs-test", "drm_EZDRM-2-keys-cbcs-test"}, {"eccp_cbcs", "eccp_cenc"}, {"eccp_cbcs", "drm_EZDRM-1-key-cbcs-test"},
 	{"segtimeline_1", "segtimelinenr_1"}, {"timesubsstpp_en,sv", "timesubsstpp_sv,en"}, {"scte35_1", "scte35_3"}, {"tsbd_20", "tsbd_300"}, {"snr_7", "snr_8"},
@@ -194,7 +194,7 @@ func genCase(t *rapid.T) (Case, *env.Env) {
 		// a sibling request: the same URL with one option exchanged for a closely related one (other DRM package of the same
 		// scheme, other scheme, other timeline flavour ...). An answer that is cached under an incomplete key shows up as a
 		// dependence on which of the two was served first.
-		if !r.API && (rapid.IntRange(0, 2).Draw(t, "sibling?") == 0 || strings.Contains(r.URL, "/drm_") || strings.Contains(r.URL, "/eccp_")) {
+		if !r.API && (rapid.IntRange(0, 2).Draw(t, "sibling?") == 0 || strings.Contains(r.URL, "/drm_") || strings.Contains(r.URL, "/eccp_") || strings.Contains(r.URL, "/stop_1800/")) {
 			var cands []string
 			for _, sw := range siblingOpts {
 				for k := 0; k < 2; k++ {
@@ -202,6 +202,14 @@ func genCase(t *rapid.T) (Case, *env.Env) {
 						cands = append(cands, strings.Replace(r.URL, "/"+sw[k]+"/", "/"+sw[1-k]+"/", 1))
 					}
 				}
+			}
+			// the same URL on the other side of its stop time
+			if i := strings.Index(r.URL, "nowMS="); i > 0 && strings.Contains(r.URL, "/stop_1800/") {
+				other := "nowMS=3600123"
+				if strings.HasPrefix(r.URL[i:], "nowMS=36") {
+					other = "nowMS=30123"
+				}
+				cands = append(cands, r.URL[:i]+other)
 			}
 			if len(cands) > 0 {
 				c.Reqs = append(c.Reqs, Req{Method: r.Method, URL: rapid.SampledFrom(cands).Draw(t, "sibling")})
